@@ -67,7 +67,7 @@ def ref_text(k):
     return RULES[k - 1].get("name") or RULES[k - 1]["id"]
 
 
-def corr_doc(c):
+def corr_doc(c, alias_by_id=False):
     d = {"type": uncps(c["type"]), "timespan": f"{c['ts']['count']}{chr(c['ts']['unit'])}", "generate": bool(c["generate"])}
     cond = c["cond"]
     if cond["kind"] == "ext":
@@ -83,7 +83,8 @@ def corr_doc(c):
     if c["hasgroup"]:
         d["group-by"] = [uncps(g) for g in c["groupby"]]
     if c["aliases"]:
-        d["aliases"] = {uncps(a["alias"]): {ref_text(k): uncps(f) for k, f in a["map"]} for a in c["aliases"]}
+        # alias mappings may name a rule by its id although the rules list names it by its name
+        d["aliases"] = {uncps(a["alias"]): {(RULES[k - 1]["id"] if alias_by_id else ref_text(k)): uncps(f) for k, f in a["map"]} for a in c["aliases"]}
     return {"title": "C", "name": "corr", "correlation": d}
 
 
@@ -106,7 +107,7 @@ def drive_case(case):
     docs = [RULES[k - 1] for k in used]
     if 5 in used and 1 not in used:
         docs = [RULES[0]] + docs
-    ret = outcome(conv(docs + [corr_doc(c)]))
+    ret = outcome(conv(docs + [corr_doc(c, case["id"] % 2 == 1)]))
     return {"id": case["id"], "c": c, "B": B, "uids": [cps(u) for u in UIDS], "alone": alone, "ret": ret}
 
 
